@@ -103,6 +103,7 @@ type vFunc struct {
 	results  []*vResult
 	retErr   bool
 	errFirst bool // the error result comes first instead of last
+	errKind  int  // 0: declared as error; 1: declared as the concrete type vErrCode (always fails with vErrCode(0))
 	reenter  bool // execution 0 re-enters the container (Invoke of its own first result key)
 	variadic bool
 	export   bool
@@ -132,6 +133,14 @@ var (
 type vErr struct{ id int64 }
 
 func (e *vErr) Error() string { return "verif user error" }
+
+// vErrCode is a concrete, non-pointer error type: every value of it, the zero
+// value included, is a non-nil error.
+type vErrCode int
+
+func (vErrCode) Error() string { return "verif error code" }
+
+var vErrCodeType = reflect.TypeOf(vErrCode(0))
 
 // vPanicVal is the value user functions panic with.
 type vPanicVal struct{ id int64 }
@@ -241,15 +250,19 @@ func (f *vFunc) layout() {
 		outs = append(outs, reflect.StructOf(ofields))
 	}
 	f.errOut = -1
+	et := vErrType
+	if f.errKind == 1 {
+		et = vErrCodeType
+	}
 	if f.retErr && f.errFirst {
 		f.errOut = 0
-		outs = append([]reflect.Type{vErrType}, outs...)
+		outs = append([]reflect.Type{et}, outs...)
 		for i := range f.rOut {
 			f.rOut[i]++
 		}
 	} else if f.retErr {
 		f.errOut = len(outs)
-		outs = append(outs, vErrType)
+		outs = append(outs, et)
 	}
 	f.outTypes = outs
 	f.typ = reflect.FuncOf(ins, outs, f.variadic)
@@ -285,6 +298,7 @@ type vExec struct {
 	invoke  int // index of the Invoke during which it ran (-1 outside)
 	tEnter  int64
 	tExit   int64
+	code    bool // failed with the concrete error value vErrCode(0)
 	nested  int  // outcome class of the nested Invoke (re-entering functions), -1 if none
 	nestRan bool // the nested Invoke called its function
 }
@@ -545,7 +559,9 @@ func (w *vWorld) makeFn(r *vReg) reflect.Value {
 			e.pval = &vPanicVal{id: verifNdI64("panic")}
 			panic(e.pval)
 		case vFail:
-			if f.errOut >= 0 {
+			if f.errOut >= 0 && f.errKind == 1 {
+				e.code = true // the zero vErrCode already in outs is the error
+			} else if f.errOut >= 0 {
 				e.err = &vErr{id: verifNdI64("err")}
 				outs[f.errOut].Set(reflect.ValueOf(e.err))
 			} else {
@@ -617,6 +633,7 @@ type vOutcome struct {
 	class  int
 	err    error
 	uerr   *vErr
+	ucode  bool
 	pval   interface{}
 	panicv interface{}
 }
@@ -640,6 +657,11 @@ func vClassify(err error) vOutcome {
 	if ue, ok := rc.(*vErr); ok {
 		o.class = vcUser
 		o.uerr = ue
+		return o
+	}
+	if _, ok := rc.(vErrCode); ok {
+		o.class = vcUser
+		o.ucode = true
 		return o
 	}
 	var de Error
